@@ -40,6 +40,9 @@ Section Device.
   Variable O_pubkey : val -> option pubkey.
 
   Notation unm := (unmarshal O_der O_rfc).
+  (* cbor.NewDecoder(resp).Decode: the first item of the stream; bytes after it are not read *)
+  Definition sdec (t : ty) (b : bytes) : outcome val :=
+    match dec O_der O_rfc (fuel_for b) 0 t b with Ok (v, _) => Ok v | Err e => Err e | Panic p => Panic p | OutOfFuel => OutOfFuel end.
 
   (* a received message: its Message-Type and body *)
   Definition msg := (N * bytes)%type.
@@ -53,7 +56,7 @@ Section Device.
       | [] => None
       | (t, b) :: rest =>
         if negb (t =? 63)%N then None else
-        match unm ty_ov_next b with
+        match sdec ty_ov_next b with
         | Ok (VList [VInt j; ev]) =>
           if negb (j =? Z.of_nat i) then None else
           match entry_of_val ev, fetch_entries (S i) n' rest with
@@ -71,7 +74,7 @@ Section Device.
   Definition verify_owner (d : dev_state) (m61 : msg) (resps : list msg) (to1d : option bytes) : verdict :=
     let '(t61, b61) := m61 in
     if negb (t61 =? 61)%N then Abort else
-    match unm ty_prove_ovhdr b61 with
+    match sdec ty_prove_ovhdr b61 with
     | Ok (VList [VMap prot; VMap unprot; pl; VBytes sig]) =>
       match pl with
       | VList [ovh; VInt num; hm; VBytes nonce; _; VBytes _; VList [VInt halg; VBytes hval]; VInt _] =>
